@@ -1,16 +1,21 @@
 #!/bin/sh
-# Regression of the checks' detection power: apply each kept seeded change to /repo, run the quick check of its
-# property, undo it. Prints one line per change; exit 1 if one is not reported.  usage: tools/run_seeded.sh [name ...]
-cd /verif
-git -C /repo diff --quiet || { echo "/repo is dirty"; exit 2; }
+# Regression of the checks' detection power: apply each kept seeded change to the repository under test
+# (VERIF_REPO, default /repo), run the quick check of its property, undo it.  One line per change; exit 1 if one is
+# not reported.  usage: tools/run_seeded.sh [name ...]
+V=$(cd "$(dirname "$0")/.." && pwd)
+R=${VERIF_REPO:-/repo}
+cd "$V"
+git -C "$R" diff --quiet || { echo "$R is dirty"; exit 2; }
 NAMES="$@"; [ -z "$NAMES" ] && NAMES=$(ls seeded)
 BAD=0
 for n in $NAMES; do
   P=$(python3 -c "import json;print(json.load(open('seeded/$n/meta.json'))['property'])")
-  if ! git -C /repo apply --check seeded/$n/patch.diff 2>/dev/null; then echo "$n ($P): patch no longer applies (the code it changed was repaired since)"; continue; fi
-  git -C /repo apply seeded/$n/patch.diff
-  OUT=$(./check $P --tier quick 2>&1 | grep -v "^WARNING" | tail -3)
-  git -C /repo checkout -- .
-  if echo "$OUT" | grep -q "^VIOLATION property=$P"; then echo "$n ($P): detected  [$(echo "$OUT" | grep '^check' | sed 's/.*theorems/theorems/')]"; else echo "$n ($P): MISSED"; BAD=1; fi
+  if ! git -C "$R" apply --check "$V/seeded/$n/patch.diff" 2>/dev/null; then echo "$n ($P): patch no longer applies (the code it changed was changed since)"; continue; fi
+  git -C "$R" apply "$V/seeded/$n/patch.diff"
+  OUT=$(./check $P --tier quick 2>&1 | grep -v "^WARNING" | tail -4)
+  git -C "$R" checkout -- .
+  if echo "$OUT" | grep -q "^VIOLATION property=$P replay=[^ ]*$"; then echo "$n ($P): detected, failing input found  [$(echo "$OUT" | grep '^check' | sed 's/.*theorems/theorems/')]"
+  elif echo "$OUT" | grep -q "^VIOLATION property=$P"; then echo "$n ($P): detected (no-failing-input-found)  [$(echo "$OUT" | grep '^check' | sed 's/.*theorems/theorems/')]"
+  else echo "$n ($P): MISSED"; BAD=1; fi
 done
 exit $BAD
